@@ -82,6 +82,28 @@ B("B60", "C14-R1", [(SD, '''            # Attractor data computed while the node
 B("B61", "C14-R1", [(SCC, '''    if not sd.node_data(attach_at)["expanded"] or sd.node_data(attach_at)["skipped"]:
         # Data computed''', '''    if sd.node_data(attach_at)["expanded"]:
         # Data computed''')], "attach: reset guarded by the wrong polarity")
+B("B315", ["C08-K4"], [(CAND, """            filtered_candidates.append(valuation_to_state(symbolic_ctx, state_val))""", """            pass""")],
+  "run_simulation_minification (no avoid set): the surviving states are never collected (mutation sweep)")
+B("B316", ["C12-D"], [("biobalm/_sd_attractors/attractor_symbolic.py", """                        all_done = False  # The main loop should continue.
+                        reach_set = updated""", """                        reach_set = updated""")],
+  "symbolic_attractor_test: the reach set grows without asking for another round (mutation sweep: fixpoint not reached)")
+B("B313", ["C03-K"], [(SD, """            # and thus cannot be skipped.
+            node["expanded"] = True
+            return True""", """            # and thus cannot be skipped.
+            return True""")], "skip_to_minimal reports success for a node that is its own minimal trap space without closing it (mutation sweep)")
+B("B314", ["C03-K"], [(SD, """            node["skipped"] = True
+            node["expanded"] = True
+            skipped_nodes += 1""", """            node["expanded"] = True
+            skipped_nodes += 1""")], "skip_remaining does not flag its skip nodes (mutation sweep; F23's reset depends on the flag)")
+B("B312", ["C03-K"], [(SD, """            m_data = self.node_data(m_id)
+            m_data["expanded"] = True
+
+        node["expanded"] = True
+        node["skipped"] = True""", """            m_data = self.node_data(m_id)
+
+        node["expanded"] = True
+        node["skipped"] = True""")],
+  "skip_to_minimal: the nodes of the minimal trap spaces stay stubs (mutation sweep)")
 B("B308", ["C08-K3"], [(CAND, """                avoid_bdd = avoid_bdd.l_or(state_bdd)
                 filtered_states.append(state)""", """                avoid_bdd = avoid_bdd.l_or(state_bdd)""")],
   "pint filter: kept states are never collected (mutation sweep)")
